@@ -907,6 +907,7 @@ func (p *Parser) parseAsteriskInsertExpr() (expression, bool, error) {
 	if ok {
 		return &asteriskInsertExpr{sources: sources, raw: p.input[cp.pos:p.pos]}, true, nil
 	}
+	cp.restore()
 	return nil, false, err
 }
 
